@@ -50,8 +50,8 @@ Keep0 == UNCHANGED <<fs0, dropped, keep, mvt, locked, crashed, plan, members, en
 CallStep ==
   LET c == R.call  ok == R.ok IN
   \E f \in dropped :
-     \/ c = "lockopen" /\ R.p1 = f /\ LockOpen(f, ok)
-     \/ c = "lock" /\ R.p1 = f /\ Lock(f, ok)
+     \/ c = "lockopen" /\ R.p1 = f /\ (IF ~ok /\ R.errno \in {38, 95} THEN LockUnsupported(f) ELSE LockOpen(f, ok))
+     \/ c = "lock" /\ R.p1 = f /\ (IF ~ok /\ R.errno \in {38, 95} THEN LockUnsupported(f) ELSE Lock(f, ok))
      \/ c = "unlink" /\ R.p1 = f /\ (Rm(f, ok) \/ CpRmSrc(f, ok))
      \/ c = "unlink" /\ tmp[f] # "" /\ R.p1 = tmp[f] /\ (RmTmp(f, ok) \/ ClRmTmp(f, ok) \/ BkCleanup(f, ok))
      \/ c = "rename" /\ R.p1 = f /\ R.sib = f /\ MvTmp(f, R.p2, ok)
@@ -65,7 +65,7 @@ CallStep ==
      \/ c = "clone" /\ tmp[f] # "" /\ R.p1 = tmp[f] /\ R.p2 = f /\ BkClone(f, ok)
      \/ c = "clone" /\ R.p1 = f /\ R.p2 = keep[f] /\ ClClone(f, ok)
      \/ c = "copy" /\ Op = "move" /\ R.p1 = mvt[f] /\ CpCopy(f, ok)
-     \/ c = "mkdir" /\ Op = "move" /\ Mkdir(f, R.p1, ok \/ (R.errno = 17 /\ R.p1 \in DOMAIN fs /\ fs[R.p1].k = "dir"))   \* create_dir_all accepts an existing directory
+     \/ c = "mkdir" /\ Op = "move" /\ Mkdir(f, R.p1, ok \/ (R.errno = 17 /\ (R.p1 \notin DOMAIN fs \/ fs[R.p1].k = "dir")))   \* create_dir_all accepts an existing directory; with several threads the EEXIST of one thread may be logged before the successful mkdir of another
      \/ c = "utimes" /\ R.p1 = f /\ Times(f, ok)
 
 TCall == /\ IsEv("Call") /\ Keep0
